@@ -127,7 +127,7 @@ def generic(ctx, prop, opts, n_quick=(16, 25), n_thorough=(64, 120), with_values
         extra_cov['value_result_kinds'] = vstats
         dis += [dict(d, at='val') for d in vdis]
     if with_parse:
-        pstats, pdis, pviol, psamples = run_parse(ctx.seed, 16 if ctx.tier == 'quick' else 48, 25 if ctx.tier == 'quick' else 120)
+        pstats, pdis, pviol, psamples = run_parse(ctx.seed, 16 if ctx.tier == 'quick' else 48, 80 if ctx.tier == 'quick' else 400)
         evaluations += sum(v for k, v in pstats.items() if k.endswith('agree') or k.endswith('disagree'))
         extra_cov['parser_runs'] = pstats
         dis += [dict(d, at='parse') for d in pdis]
